@@ -345,13 +345,13 @@ func TestVerif_C38(t *testing.T) {
 	for _, mp := range []int{1, 2} {
 		p := fmt.Sprintf("mp%d/", mp)
 		add(p+"answer", 1, 1, c38cfg{maxPending: mp, calls: mk(false, cl("A", D, sec), cl("B", T, sec), cl("C", D, sec)), beh: map[string]c04beh{"A": {}, "B": {chunked: true}, "C": {}}})
-		add(p+"answer/sim", 0, 1, c38cfg{maxPending: mp, calls: mk(true, cl("A", D, sec), cl("B", T, sec), cl("C", D, sec)), beh: map[string]c04beh{"A": {}, "B": {chunked: true}, "C": {}}})
+		add(p+"answer/sim", 0, mp-1, c38cfg{maxPending: mp, calls: mk(true, cl("A", D, sec), cl("B", T, sec), cl("C", D, sec)), beh: map[string]c04beh{"A": {}, "B": {chunked: true}, "C": {}}})
 		add(p+"never-answers", 1, 2, c38cfg{maxPending: mp, calls: mk(false, cl("A", D, sec), cl("B", T, 2*sec), cl("C", D, 3*sec)), beh: map[string]c04beh{"A": {never: true}}})
-		add(p+"never-answers/sim", 0, 1, c38cfg{maxPending: mp, calls: mk(true, cl("A", D, sec), cl("B", T, 2*sec), cl("C", D, 3*sec)), beh: map[string]c04beh{"A": {never: true}, "B": {never: true}, "C": {never: true}}})
+		add(p+"never-answers/sim", 1, 1, c38cfg{maxPending: mp, calls: mk(true, cl("A", D, sec), cl("B", T, 2*sec), cl("C", D, 3*sec)), beh: map[string]c04beh{"A": {never: true}, "B": {never: true}, "C": {never: true}}})
 		add(p+"slow", 1, 2, c38cfg{maxPending: mp, calls: mk(false, cl("A", D, sec), cl("B", D, 2*sec), cl("C", T, 6*sec)),
 			beh: map[string]c04beh{"A": {stall: 1500 * ms}, "B": {stall: 1500 * ms}, "C": {stall: 1500 * ms}}})
 		add(p+"closes-mid-response", 1, 1, c38cfg{maxPending: mp, calls: mk(false, cl("A", D, sec), cl("B", T, sec)), beh: map[string]c04beh{"A": {cut: true}, "B": {}}})
-		add(p+"dial-refused", 2, 2, c38cfg{maxPending: mp, calls: mk(false, cl("A", D, sec), cl("B", T, sec), cl("C", D, 2*sec)), dial: []int{1}, dialTime: 400 * ms, beh: map[string]c04beh{}})
+		add(p+"dial-refused", 2, 3, c38cfg{maxPending: mp, calls: mk(false, cl("A", D, sec), cl("B", T, sec), cl("C", D, 2*sec)), dial: []int{1}, dialTime: 400 * ms, beh: map[string]c04beh{}})
 		add(p+"answer-races-deadline", 1, 2, c38cfg{maxPending: mp, calls: mk(false, cl("A", D, sec), cl("B", T, sec)), beh: map[string]c04beh{"A": {stall: sec}, "B": {}}})
 		add(p+"dial-env", 1, 2, c38cfg{maxPending: mp, calls: mk(false, cl("A", D, sec), cl("B", T, sec)), dialEnv: true, dialTime: 300 * ms, beh: map[string]c04beh{"A": {}, "B": {}}})
 		// a pooled work item (and its timer) is reused by the second call of the same thread, which is never answered
